@@ -351,13 +351,14 @@ def rewriter_proof(repo, rep, rule="R10.2"):
             return False
         return any(isinstance(x, ast.FunctionDef) for x in tree.body)
 
-    def source_of(call):
+    def source_of(call, fn_=None):
         srcs = [call.args[0]] if call.args else []
         srcs += [k.value for k in call.keywords if k.arg == "source"]
         for s_ in srcs:
             try:
-                t_ = repo.fold(s_, m)
-            except NotConst:
+                t_ = repo.fold(s_, m) if fn_ is None else \
+                    L.fold_in_func(repo, fn_, s_)
+            except Exception:
                 continue
             if isinstance(t_, str):
                 return t_
@@ -405,7 +406,7 @@ def rewriter_proof(repo, rep, rule="R10.2"):
                     if in_compiler:
                         continue
             elif isinstance(c.func, ast.Name) and c.func.id == "template":
-                t_ = source_of(c)
+                t_ = source_of(c, fn)
                 names = bare_settings(t_) if t_ else None
             if not names:
                 continue
